@@ -152,8 +152,13 @@ def run_case(ctx, case, model=True):
             rp = obj.get_fuel_cell_run_point(power_out_kw=arg)
         elif kind == "cogas":
             obj = plants.build_cogas(case["spec"]["cogas"])
-            obj.power_output = arg
-            rp = obj.get_gas_turbine_run_point_from_power_output_kw()
+            if case["idx"] % 2:         # the power as an argument, on a plant that has not been given a power yet
+                rp = obj.get_gas_turbine_run_point_from_power_output_kw(arg)
+                ctx.count("cogas_power", "argument")
+            else:
+                obj.power_output = arg
+                rp = obj.get_gas_turbine_run_point_from_power_output_kw()
+                ctx.count("cogas_power", "stored")
         else:
             obj = plants.build_electric_component(case["spec"])
             obj.power_output = arg
@@ -211,7 +216,7 @@ def run_case(ctx, case, model=True):
                 ctx.fail("predicate", "fuel-cell-mass", f"step {t}: {got} != (P/eta)/LHV x modules = {want}", where)
         else:
             cg = obj if kind == "cogas" else obj.cogas
-            pc = float(np.broadcast_to(np.asarray(cg.power_output, dtype=float), (n,))[t])
+            pc = float(P[t]) if kind == "cogas" else float(np.broadcast_to(np.asarray(cg.power_output, dtype=float), (n,))[t])
             ef = float(cg.get_efficiency_from_load_percentage(abs(pc) / case["spec"]["cogas"]["rated"]))
             want = pc / ef / lhv_of(case["spec"]["cogas"]["fuel_type"], case["spec"]["cogas"]["fuel_origin"]) / 1e6
             got = float(np.broadcast_to(fl[0][2], (n,))[t])
